@@ -61,7 +61,7 @@ ALPH = (list("abcXYZ09") + list(PUNCT) * 2 + [" ", " ", "\t", "é", "的", "\xa0
 
 
 def floors(tier):
-    f = {"compared": 200000 if tier == "quick" else 5000000, "named_references_enumerated": 1500, "long_texts": 400}
+    f = {"compared": 200000 if tier == "quick" else 5000000, "named_references_enumerated": 1500, "long_texts": 400, "numeric_references_swept": 800}
     for c in CTX:
         for form in ("bs", "ref"):
             f[f"ctx.{c}.{form}"] = 3000
@@ -174,6 +174,21 @@ def run(ctx):
             one(ctx, cname, "ref", t, "&" + nme, "cm")
         ctx.count("named_references_enumerated")
     ctx.info["named_references_total"] = len(names)
+    # numeric references (decimal, &#x.., &#X..) for the code points at the edges of the character classes and of every plane
+    cps = set(gen.boundary_codepoints())
+    for plane in range(0, 17):
+        for off in (0, 1, 0x7F, 0x80, 0xFF, 0xD7FF, 0xD800, 0xDBFF, 0xDC00, 0xDFFF, 0xE000, 0xFDD0, 0xFDEF, 0xFFFD, 0xFFFE, 0xFFFF):
+            cps.add(plane * 0x10000 + off)
+    cps = sorted(c for c in cps if c <= 0x10FFFF and not 0xD800 <= c <= 0xDFFF and valid_ref_code(c) and chr(c).strip() == chr(c) and chr(c) != "")
+    for i, c in enumerate(cps):
+        if not ctx.mine(i):
+            continue
+        for spelled in (f"&#{c};", f"&#x{c:x};", f"&#X{c:X};", f"&#{c:07d};"):
+            for cname in ("para", "head", "linktext", "alt", "title_dq", "title_ref", "cell", "em_tight"):
+                if cname == "em_tight" and not chr(c).isalnum():
+                    continue   # (flanking depends on the character's class; letters and digits are always safe)
+                one(ctx, cname, "ref", chr(c), spelled, "cm" if i % 2 else "js")
+        ctx.count("numeric_references_swept")
     # long texts: escaping multiplies the source length (a 200-character text is >1000 characters when written as references)
     for k in range(ctx.scale(600, 20000)):
         n = rng.choice([170, 200, 250, 400, 999, 1000, 1100])
